@@ -131,6 +131,17 @@ def gen_cases(ctx):
                     [(nu, ks) for nu in (False, True) for ks in (["box", "plane2"], ["box", "plane0"], ["full", "cell"], ["plane1", "box"],
                                                                   ["box", "box"], ["cell", "plane2"], ["full", "plane1"], ["box", "plane0"])])
     cases = [make_case(rng, nu, ks) for nu, ks in plan]
+    # complex field storage (forced, as with a Bloch phase): the real-output detectors (energy, Poynting variants, closed surface) must satisfy
+    # the same identities; predicate only (the Coq instance executes real fields)
+    for nu in ctx.pick([True], [False, True]):
+        c = make_case(rng, nu, ["box", "plane1"])
+        sh = c["scene"]["shape"]
+        c["scene"]["complex"] = True
+        c["cplx"] = True
+        c["Eim"] = [[[[rng.randint(-8, 8) for _ in range(sh[2])] for _ in range(sh[1])] for _ in range(sh[0])] for _ in range(3)]
+        c["Him"] = [[[[rng.randint(-8, 8) for _ in range(sh[2])] for _ in range(sh[1])] for _ in range(sh[0])] for _ in range(3)]
+        c["dets"] = [d for d in c["dets"] if d["kind"] in ("energy", "poynting", "closed")]
+        cases.append(c)
     # malformed stream: a single-component detector whose propagation axis cannot be determined
     cases.append({"kind": "bad_axis", "scene": {"shape": [3, 3, 3], "widths": None, "T": 3}, "t": 0,
                   "E": [[[[1] * 3] * 3] * 3] * 3, "H": [[[[1] * 3] * 3] * 3] * 3, "ie": [[[[4] * 3] * 3] * 3], "im": None, "ph0": [0, 0],
@@ -271,6 +282,8 @@ def coq_expr(case, out):
         return f"(match prop_axis None {n} with None => {core.blit(ok)} | Some _ => {core.blit(not ok)} end)"
     if "crash" in out:
         return "false"
+    if case.get("cplx"):
+        return None
     parts = [e for _, e in det_exprs(case, out)]
     return prelude(case) + "(" + " && ".join(parts) + ")"
 
@@ -333,11 +346,13 @@ def predicate(case, out):
             return ar.reshape(s)
 
         checks = []
+        cplx = bool(case.get("cplx"))
         # volume mean / sum
-        checks.append(("field-mean", A("f_rd"), (A("f_sp") * V).sum(axis=(1, 2, 3)) / V.sum()))
-        checks.append(("field-mean-subset", A("f_sub_rd"), (A("f_sub_sp") * V).sum(axis=(1, 2, 3)) / V.sum()))
-        sub = sel_of(g["f_sub_sp"][0]["opts"])
-        checks.append(("field-subset-order", A("f_sub_sp"), A("f_sp")[sub]))
+        if not cplx:
+            checks.append(("field-mean", A("f_rd"), (A("f_sp") * V).sum(axis=(1, 2, 3)) / V.sum()))
+            checks.append(("field-mean-subset", A("f_sub_rd"), (A("f_sub_sp") * V).sum(axis=(1, 2, 3)) / V.sum()))
+            sub = sel_of(g["f_sub_sp"][0]["opts"])
+            checks.append(("field-subset-order", A("f_sub_sp"), A("f_sp")[sub]))
         checks.append(("energy-sum", A("en_rd"), [(A("en_sp") * V).sum()]))
         # Poynting
         d0 = g["pf_p_rd"][0]
@@ -359,6 +374,11 @@ def predicate(case, out):
         checks.append(("inward-negates", A("cs_in"), -A("cs_out")))
         pax = g["cs_perm"][0]["opts"]["axes"]
         checks.append(("closed-axes-subset", A("cs_perm"), sum(A(f"face{a}max") - A(f"face{a}min") for a in pax)))
+        if cplx:
+            for name, got, exp in checks:
+                if np.shape(got) != np.shape(np.asarray(exp)) or relerr(got, exp) > tol:
+                    return (f"complex-fields:{name}", f"box {box} ({tag} grid, complex field storage): {name}: got {np.asarray(got).ravel()[:6]} expected {np.asarray(exp).ravel()[:6]}")
+            continue
         # phasors
         ph0 = complex(case["ph0"][0] / 4, case["ph0"][1] / 4)
 
